@@ -79,5 +79,12 @@ InnerTagged(t, tag) ==
     [] t = "svec" -> "[ \"a\" " \o tag \o " 5 \"b\" ]"
     [] t = "map"  -> "{ 1 " \o tag \o " \"k\" 2 \"j\" }"
 
+\* phrases through which a value travels without being computed on (prefix, suffix around the value): what arrives
+\* must be the value that was sent, carrying exactly the same tag map
+Carriers == << <<"", "var zv zv">>, <<"#(", "const zk #) zk">>, <<"#(", "#)">>, <<"#(", "#) var zw zw">>, <<": zf local zl zl ;", "zf">>,
+               <<": zg", "; zg">>, <<"[", "] 0 get">>, <<"{", "1 } 1 get">>, <<"", "dup drop">>, <<"1", "swap drop">>, <<"", "1 collect unbox">>,
+               <<"", "let zq zq">>, <<": zh #(", "#) ; zh">>, <<"[ #(", "#) ] 0 get">> >>
+CarryTypes == <<"int", "zero", "real", "flag", "nil", "str", "vec", "map", "bits">>
+
 TagMaps == << "{ } with-tags", "{ 1 \"z\" } with-tags", "^hex", "{ 9 \"t\" \"u\" insert-tag \"z\" } with-tags" >>
 =============================================================================
